@@ -1,4 +1,5 @@
-import MesaModel.Proofs.LayersFrame
+import MesaModel.Proofs.LayersTyped
+import MesaModel.Gen.NumpyTables
 /-!
 # C11 — property layers and cell attributes are one value; selection is exact
 
@@ -40,7 +41,7 @@ theorem C11_cell_write_read_through_layer {s s' : State} (h : Reach s) {n : Stri
   have hw := h.wf
   have hl := hw.att_lt n l hn
   obtain ⟨hc, hs'⟩ := cellSet_ok_attached hw hn hset
-  have hw' : WF s' := hw.of_sameShape (by rw [hs']; exact ⟨rfl, rfl, rfl, rfl, rfl, rfl, rfl, rfl⟩)
+  have hw' : WF s' := hw.of_sameShape (by rw [hs']; exact ⟨rfl, rfl, rfl, rfl, rfl, rfl, rfl, rfl, rfl⟩)
   have e1 : s'.nLayers = s.nLayers := by rw [hs']
   have e2 : s'.layers = s.layers := by rw [hs']
   have e3 : s'.named? n = some l := by rw [hs']; exact hn
@@ -71,7 +72,7 @@ theorem C11_layer_write_read_through_cell {s s' : State} (h : Reach s) {l : Nat}
     ∀ l' c', l' < s.nLayers → (l' ≠ l ∨ c' ≠ c) → s'.value l' c' = s.value l' c' := by
   have hw := h.wf
   obtain ⟨hl, hc, hs'⟩ := layerSet_ok hset
-  have hw' : WF s' := hw.of_sameShape (by rw [hs']; exact ⟨rfl, rfl, rfl, rfl, rfl, rfl, rfl, rfl⟩)
+  have hw' : WF s' := hw.of_sameShape (by rw [hs']; exact ⟨rfl, rfl, rfl, rfl, rfl, rfl, rfl, rfl, rfl⟩)
   have e1 : s'.nLayers = s.nLayers := by rw [hs']
   have e2 : s'.layers = s.layers := by rw [hs']
   have e3 : ∀ n, s'.named? n = s.named? n := by intro n; rw [hs']; rfl
@@ -116,7 +117,7 @@ theorem C11_read_after_write_persists {s s1 : State} (h : Reach s) {n : String} 
   have hl := hw.att_lt n l hn
   have hr1 : Reach s1 := by
     have := Reach.step (.cellSet n c v) h
-    simp only [step] at this
+    simp only [step, State.cellWVal] at this
     rwa [hset] at this
   obtain ⟨hc, hs1⟩ := cellSet_ok_attached hw hn hset
   have hl1 : l < s1.nLayers := by rw [hs1]; exact hl
@@ -150,7 +151,7 @@ theorem C11_set_cells_pointwise {s s' : State} (h : Reach s) {l : Nat} (hl : l <
       cellGet s' n c = .val (if condHolds cond (s.value l c) then v else s.value l c)) := by
   have hw := h.wf
   obtain ⟨ho, hs'⟩ := setCells_ok hl hset
-  have hw' : WF s' := hw.of_sameShape (by rw [hs']; exact ⟨rfl, rfl, rfl, rfl, rfl, rfl, rfl, rfl⟩)
+  have hw' : WF s' := hw.of_sameShape (by rw [hs']; exact ⟨rfl, rfl, rfl, rfl, rfl, rfl, rfl, rfl, rfl⟩)
   have e3 : ∀ n, s'.named? n = s.named? n := by intro n; rw [hs']; rfl
   have e4 : s'.dims = s.dims := by rw [hs']
   have hv : ∀ l' c, l' < s.nLayers → s'.value l' c =
@@ -251,7 +252,7 @@ theorem C11_write_through_live_reference {s s' : State} (h : Reach s) {l : Nat} 
   rw [hh] at hlk
   simp only [Option.some.injEq, Prod.mk.injEq] at hlk
   obtain ⟨rfl, rfl⟩ := hlk
-  have hw' : WF s' := hw.of_sameShape (by rw [hs']; exact ⟨rfl, rfl, rfl, rfl, rfl, rfl, rfl, rfl⟩)
+  have hw' : WF s' := hw.of_sameShape (by rw [hs']; exact ⟨rfl, rfl, rfl, rfl, rfl, rfl, rfl, rfl, rfl⟩)
   have e3 : ∀ n, s'.named? n = s.named? n := by intro n; rw [hs']; rfl
   have e4 : s'.dims = s.dims := by rw [hs']
   have hv : ∀ l' c', l' < s.nLayers → s'.value l' c' =
@@ -271,12 +272,307 @@ theorem C11_write_through_live_reference {s s' : State} (h : Reach s) {l : Nat} 
       · simp [Arr.set, hne, State.value]
     · rfl
 
+/-! ## element types: what a write of another type stores, and what `modify_cells` does to the dtype
+
+Entries are encoded per dtype (bool 0/1, int, float in quarters); `quarters d v` is the number an entry
+stands for.  `x : Val` is a Python scalar (`x.ok`: a Python bool is 0 or 1). -/
+
+/-- numpy's assignment cast in numbers: into a float array every bool / int / float enters exactly; into an
+    int array bools and ints enter exactly and a float is replaced by the integer next to it *toward zero*;
+    into a bool array everything becomes its truth value. -/
+theorem C11_assignment_cast_value (x : Val) (hx : x.ok) :
+    quarters .float (castTo .float x) = quarters x.ty x.raw ∧
+    (x.ty ≠ .float → quarters .int (castTo .int x) = quarters x.ty x.raw) ∧
+    (0 ≤ x.raw → quarters .int (castTo .int x) ≤ quarters x.ty x.raw ∧
+                 quarters x.ty x.raw < quarters .int (castTo .int x) + 4) ∧
+    (x.raw ≤ 0 → quarters x.ty x.raw ≤ quarters .int (castTo .int x) ∧
+                 quarters .int (castTo .int x) - 4 < quarters x.ty x.raw) ∧
+    castTo .bool x = (if quarters x.ty x.raw = 0 then 0 else 1) := by
+  obtain ⟨ty, raw⟩ := x
+  have ht := tdiv4_trunc raw
+  cases ty <;> simp_all [castTo, quarters, Val.ok, boolInt] <;> omega
+
+/-- A typed write through the cell attribute (`cell.a = 2.7` on an int layer, `cell.a = 5` on a bool layer,
+    …): the value is cast by the dtype the layer has *now*, and the layer and the cell attribute read back
+    that same cast value — never two different ones; nothing else changes, the dtype included. -/
+theorem C11_typed_cell_write_one_value {s s' : State} (h : Reach s) {n : String} {l : Nat}
+    (hn : s.named? n = some l) {c : Coord} {x : Val} (hset : step s (.cellSet n c (.py x)) = (s', .ok)) :
+    layerGet s' l c = .val (castTo (s.dtypeOf l) x) ∧ cellGet s' n c = .val (castTo (s.dtypeOf l) x) ∧
+    s'.dtypeOf l = s.dtypeOf l ∧
+    ∀ l' c', l' < s.nLayers → (l' ≠ l ∨ c' ≠ c) → s'.value l' c' = s.value l' c' := by
+  simp only [step, State.cellWVal, hn] at hset
+  obtain ⟨h1, h2, h3⟩ := C11_cell_write_read_through_layer h hn hset
+  refine ⟨h1, h2, ?_, h3⟩
+  have := sameShape_cellSet s n c (castTo (s.dtypeOf l) x)
+  rw [hset] at this
+  exact dtypeOf_sameShape this l
+
+/-- the same for a typed write through the layer (`layer.data[c] = x`, legacy `set_cell`): every cell
+    attribute the layer is attached under reads the cast value -/
+theorem C11_typed_layer_write_one_value {s s' : State} (h : Reach s) {l : Nat} {c : Coord} {x : Val}
+    (hset : step s (.layerSet l c (.py x)) = (s', .ok)) :
+    layerGet s' l c = .val (castTo (s.dtypeOf l) x) ∧
+    (∀ n, s.named? n = some l → cellGet s' n c = .val (castTo (s.dtypeOf l) x)) ∧
+    s'.dtypeOf l = s.dtypeOf l ∧
+    ∀ l' c', l' < s.nLayers → (l' ≠ l ∨ c' ≠ c) → s'.value l' c' = s.value l' c' := by
+  simp only [step, WVal.resolve] at hset
+  obtain ⟨h1, h2, h3⟩ := C11_layer_write_read_through_cell h hset
+  refine ⟨h1, h2, ?_, h3⟩
+  have := sameShape_layerSet s l c (castTo (s.dtypeOf l) x)
+  rw [hset] at this
+  exact dtypeOf_sameShape this l
+
+/-- `set_cells(x, cond)` with a Python scalar: numpy (`np.copyto`, `same_kind`) refuses exactly the casts
+    that could lose something — a float into an int or bool layer, an int into a bool layer — and then
+    nothing is written; every other value enters *exactly* (no truncation, unlike a single-cell write), at
+    the cells whose old value satisfies the condition. -/
+theorem C11_set_cells_typed {s : State} (h : Reach s) {l : Nat} (hl : l < s.nLayers) (x : Val) (hx : x.ok)
+    (cond : Option (Int → Bool)) :
+    (sameKind x.ty (s.dtypeOf l) = false → step s (.setCells l (.py x) cond) = (s, .err .type)) ∧
+    (sameKind x.ty (s.dtypeOf l) = true → ∃ s', step s (.setCells l (.py x) cond) = (s', .ok) ∧
+      quarters (s.dtypeOf l) (castTo (s.dtypeOf l) x) = quarters x.ty x.raw ∧
+      (∀ l' c, l' < s.nLayers → s'.value l' c =
+        if l' = l then (if condHolds cond (s.value l c) then castTo (s.dtypeOf l) x else s.value l c)
+        else s.value l' c) ∧
+      (∀ n c, s.named? n = some l → inBounds s.dims c = true →
+        cellGet s' n c = .val (if condHolds cond (s.value l c) then castTo (s.dtypeOf l) x else s.value l c))) := by
+  simp only [step, setCellsV_eq hl]
+  refine ⟨fun hk => by simp [hk], fun hk => ?_⟩
+  simp only [hk, if_true]
+  obtain ⟨ho, hv, hcell⟩ := C11_set_cells_pointwise h hl (v := castTo (s.dtypeOf l) x) (cond := cond) rfl
+  refine ⟨(setCells s l (castTo (s.dtypeOf l) x) cond).1, ?_, quarters_castTo_sameKind hx hk, hv, hcell⟩
+  exact Prod.ext rfl ho
+
+/-- `set_cells(arr, cond)` with an *array* value of the layer's shape (`layer.data = arr`,
+    `grid.set_property(name, arr, cond)`): refused — nothing written — iff the array's dtype is not
+    `same_kind`-castable; otherwise point-wise and positional: the entry at `c` becomes the number `arr[c]`
+    (not the next unused entry of `arr`) where the *old* entry at `c` satisfied the condition and stays
+    elsewhere; other layers untouched; the cell attributes show exactly these values. -/
+theorem C11_set_cells_array_pointwise {s : State} (h : Reach s) {l : Nat} (hl : l < s.nLayers) {hd a : Nat}
+    {dims : List Nat} (hh : s.handles.lookup hd = some (a, dims)) (hdims : dims = (s.layers l).dims)
+    (cond : Option (Int → Bool)) :
+    (sameKind (s.adt a) (s.dtypeOf l) = false → setFrom s l hd cond = (s, .err .type)) ∧
+    (sameKind (s.adt a) (s.dtypeOf l) = true → ∃ s', setFrom s l hd cond = (s', .ok) ∧
+      (∀ l' c, l' < s.nLayers → s'.value l' c =
+        if l' = l then (if condHolds cond (s.value l c) then recode (s.adt a) (s.dtypeOf l) (s.heap a c) else s.value l c)
+        else s.value l' c) ∧
+      (∀ c, quarters (s.dtypeOf l) (recode (s.adt a) (s.dtypeOf l) (s.heap a c)) = quarters (s.adt a) (s.heap a c)) ∧
+      (∀ n c, s.named? n = some l → inBounds s.dims c = true → cellGet s' n c = .val (s'.value l c))) := by
+  have hw := h.wf
+  have hsf : setFrom s l hd cond = (if sameKind (s.adt a) (s.dtypeOf l) then
+      ({ s with heap := upd s.heap (s.layers l).data (fun c =>
+          if condHolds cond (s.heap (s.layers l).data c) then recode (s.adt a) (s.dtypeOf l) (s.heap a c)
+          else s.heap (s.layers l).data c) }, .ok) else (s, .err .type)) := by
+    unfold setFrom State.layer? State.dtypeOf
+    simp only [hl, if_true, hh, hdims, ne_eq, not_true_eq_false, if_false]
+    cases sameKind (s.adt a) (s.adt (s.layers l).data) <;> simp
+  refine ⟨fun hk => by rw [hsf, hk]; rfl, fun hk => ?_⟩
+  rw [hsf, hk]
+  simp only [if_true]
+  refine ⟨_, rfl, fun l' c hl' => value_upd hw hl hl' _ c, fun c => ?_, fun n c hn hc => ?_⟩
+  · have : (s.adt a).rank ≤ (s.dtypeOf l).rank := by simpa [sameKind] using hk
+    exact quarters_recode this _
+  · have hw' : WF ({ s with heap := upd s.heap (s.layers l).data (fun c =>
+          if condHolds cond (s.heap (s.layers l).data c) then recode (s.adt a) (s.dtypeOf l) (s.heap a c)
+          else s.heap (s.layers l).data c) } : State) :=
+      hw.of_sameShape ⟨rfl, rfl, rfl, rfl, rfl, rfl, rfl, rfl, rfl⟩
+    exact cellGet_eq_value hw' hn hc
+
+/-- `modify_cells` whose operation yields entries of type `rd`: the layer is re-pointed to an array of the
+    *promoted* dtype; every entry stands for `f old` where the old entry satisfied the condition and for the
+    *same number as before* elsewhere (promotion loses nothing); other layers keep values and dtypes; the
+    cell attributes read the new array. -/
+theorem C11_modify_promotes_dtype {s s' : State} (h : Reach s) {l : Nat} (hl : l < s.nLayers)
+    {f : Int → Int} {cond : Option (Int → Bool)} {rd : DType} {o : Out}
+    (hm : modifyCellsT s l (some f) cond rd = (s', o)) :
+    o = .ok ∧ s'.dtypeOf l = (s.dtypeOf l).join rd ∧
+    (∀ c, quarters (s'.dtypeOf l) (s'.value l c) =
+      if condHolds cond (s.value l c) then quarters rd (f (s.value l c)) else quarters (s.dtypeOf l) (s.value l c)) ∧
+    (∀ l' c, l' < s.nLayers → l' ≠ l → s'.value l' c = s.value l' c ∧ s'.dtypeOf l' = s.dtypeOf l') ∧
+    (∀ n c, s.named? n = some l → inBounds s.dims c = true → cellGet s' n c = .val (s'.value l c)) := by
+  have hw := h.wf
+  have hw' : WF s' := by
+    have := WF_modifyCellsT hw l (some f) cond rd
+    rwa [hm] at this
+  obtain ⟨ho, hs'⟩ := modifyCellsT_ok hl hm
+  have hdt : s'.dtypeOf l = (s.dtypeOf l).join rd := by rw [hs']; simp [State.dtypeOf, upd]
+  refine ⟨ho, hdt, fun c => ?_, fun l' c hl' hne => ?_, fun n c hn hc => ?_⟩
+  · rw [hdt]
+    have hv : s'.value l c = if condHolds cond (s.value l c)
+        then recode rd ((s.dtypeOf l).join rd) (f (s.value l c))
+        else recode (s.dtypeOf l) ((s.dtypeOf l).join rd) (s.value l c) := by
+      rw [hs']; simp only [State.value, upd_same]; rfl
+    rw [hv]
+    split
+    · exact quarters_recode (DType.rank_join_right _ _) _
+    · exact quarters_recode (DType.rank_join_left _ _) _
+  · have h1 : (s.layers l').data ≠ s.next := by have := hw.data_lt l' hl'; omega
+    rw [hs']
+    constructor <;> simp [State.value, State.dtypeOf, upd, hne, h1]
+  · have e3 : s'.named? n = some l := by rw [hs']; exact hn
+    have e4 : s'.dims = s.dims := by rw [hs']
+    exact cellGet_eq_value hw' e3 (by rw [e4]; exact hc)
+
+/-- numpy's result types for `ufunc(array, Python scalar)` as the model has them: arithmetic promotes to the
+    larger of the two types (so an int layer modified with a float becomes a float layer, a bool layer
+    modified with an int an int layer), the logical ufuncs never change the layer's dtype, and `bool - bool`
+    is the one combination numpy refuses. -/
+theorem C11_ufunc_result_types (d t : DType) :
+    (∀ op ∈ [UOp.add, .mul, .max, .min], op.result d t = some (d.join t)) ∧
+    (UOp.sub.result d t = if d = .bool ∧ t = .bool then none else some (d.join t)) ∧
+    (∀ op ∈ [UOp.land, .lor, .lxor], ∀ rd, op.result d t = some rd → d.join rd = d) ∧
+    (d.join t).rank = max d.rank t.rank := by
+  cases d <;> cases t <;> decide
+
+/-- `modify_cells(ufunc, x, cond)` with a typed operand: refused (state unchanged) exactly when numpy has no
+    such operation; otherwise it is the promoting `modify_cells` with numpy's result type, and for
+    `+`, `-`, maximum, minimum into a non-bool result the new entry *is* the sum / difference / larger /
+    smaller of the two numbers. -/
+theorem C11_modify_ufunc_typed {s : State} {l : Nat} (hl : l < s.nLayers) (op : UOp) (x : Val) (hx : x.ok)
+    (cond : Option (Int → Bool)) :
+    (op.result (s.dtypeOf l) x.ty = none → step s (.modifyU l op x cond) = (s, .err .type)) ∧
+    (∀ rd, op.result (s.dtypeOf l) x.ty = some rd →
+      step s (.modifyU l op x cond) = modifyCellsT s l (some (op.apply (s.dtypeOf l) x)) cond rd ∧
+      (rd ≠ .bool → ∀ v,
+        (op = .add → quarters rd (op.apply (s.dtypeOf l) x v) = quarters (s.dtypeOf l) v + quarters x.ty x.raw) ∧
+        (op = .sub → quarters rd (op.apply (s.dtypeOf l) x v) = quarters (s.dtypeOf l) v - quarters x.ty x.raw) ∧
+        (op = .max → quarters rd (op.apply (s.dtypeOf l) x v) = max (quarters (s.dtypeOf l) v) (quarters x.ty x.raw)) ∧
+        (op = .min → quarters rd (op.apply (s.dtypeOf l) x v) = min (quarters (s.dtypeOf l) v) (quarters x.ty x.raw)))) := by
+  have hstep : step s (.modifyU l op x cond) = (match op.result (s.dtypeOf l) x.ty with
+      | none => (s, .err .type)
+      | some rd => modifyCellsT s l (some (op.apply (s.dtypeOf l) x)) cond rd) := by
+    simp only [step, modifyU, State.layer?, hl, if_true, State.dtypeOf] <;> rfl
+  refine ⟨fun hn => by rw [hstep, hn], fun rd hr => ⟨by rw [hstep, hr], fun hnb v => ?_⟩⟩
+  obtain ⟨ty, raw⟩ := x
+  generalize s.dtypeOf l = d at hr ⊢
+  have e4 : ∀ a : Int, (4 * a).tdiv 4 = a := tdiv4_mul
+  refine ⟨fun e => ?_, fun e => ?_, fun e => ?_, fun e => ?_⟩ <;> subst e <;>
+    cases d <;> cases ty <;> simp [UOp.result, DType.join, DType.rank] at hr <;> subst hr <;>
+    simp [UOp.apply, UOp.result, DType.join, DType.rank, quarters, fromQuarters, ← Int.mul_add, ← Int.mul_sub, e4] at hnb ⊢
+  all_goals (rcases Int.le_total (4 * v) (4 * raw) with h | h <;>
+    simp only [Int.max_eq_right, Int.max_eq_left, Int.min_eq_left, Int.min_eq_right, h, e4])
+
+/-- Over any history the dtype of a layer changes only when a typed `modify_cells` re-points that very
+    layer (`Op.mayRetype`) — single-cell writes of any type, `set_cells`, writes through references, adding and
+    removing layers, agent moves never change it — and it only ever widens (bool → int → float). -/
+theorem C11_dtype_changes_only_by_modify {s : State} (h : Reach s) {l : Nat} (hl : l < s.nLayers) :
+    (∀ op : Op, ¬ op.mayRetype l → (step s op).1.dtypeOf l = s.dtypeOf l) ∧
+    (∀ ops, noRetype l ops → (run s ops).1.dtypeOf l = s.dtypeOf l) ∧
+    (∀ ops, (s.dtypeOf l).rank ≤ ((run s ops).1.dtypeOf l).rank) := by
+  refine ⟨fun op hno => ?_, fun ops hn => dtype_stable_run h.wf hl ops hn, fun ops => dtype_mono_run h.wf hl ops⟩
+  rcases dtype_step h.wf hl op with h1 | ⟨h1, _⟩
+  · exact h1
+  · exact absurd h1 hno
+
+/-- legacy `modify_cell(pos, ufunc, x)` with a Python scalar of any type: refused (`TypeError`) only where
+    numpy has no such operation; otherwise that one entry becomes numpy's result *cast back into the array*
+    (`arr[pos] = …`: an int layer keeps the integer part of `3 + 0.5`), nothing else changes and — unlike the
+    bulk `modify_cells` — the layer keeps its dtype. -/
+theorem C11_modify_cell_typed {s s' : State} (h : Reach s) {l : Nat} {c : Coord} {op : UOp} {x : Val}
+    (hm : modifyCellU s l c op x = (s', .ok)) :
+    ∃ rd, op.result (s.dtypeOf l) x.ty = some rd ∧
+      s'.value l c = castTo (s.dtypeOf l) ⟨rd, op.apply (s.dtypeOf l) x (s.value l c)⟩ ∧
+      s'.dtypeOf l = s.dtypeOf l ∧
+      ∀ l' c', l' < s.nLayers → (l' ≠ l ∨ c' ≠ c) → s'.value l' c' = s.value l' c' := by
+  have hsh := sameShape_modifyCellU s l c op x
+  rw [hm] at hsh
+  unfold modifyCellU at hm
+  split at hm
+  · simp at hm
+  · split at hm
+    · simp at hm
+    · next L hL =>
+      obtain ⟨_, rfl⟩ := layer?_some hL
+      split at hm
+      · simp at hm
+      · split at hm
+        · simp at hm
+        · next rd hrd =>
+          obtain ⟨g, hg, hv, hframe⟩ := C11_modify_cell_pointwise h hm
+          simp only [Option.some.injEq] at hg
+          subst hg
+          exact ⟨rd, hrd, hv, dtypeOf_sameShape hsh l, hframe⟩
+
+/-- `PropertyLayer.from_data(name, arr)`: the new layer has the array's shape and dtype and holds its
+    values, no existing layer changes — and it holds a *copy*: a later write into the source array does not
+    show in the layer, a later write into the layer does not show in the source array. -/
+theorem C11_from_data_copies {s s' : State} (h : Reach s) {n : String} {hd : Nat} {k : Nat}
+    (hf : fromData s n hd = (s', .id k)) :
+    ∃ a dims, s.handles.lookup hd = some (a, dims) ∧ k = s.nLayers ∧ (s'.layers k).dims = dims ∧
+      s'.dtypeOf k = s.adt a ∧ (∀ c, s'.value k c = s.heap a c) ∧
+      (∀ l c, l < s.nLayers → s'.value l c = s.value l c) ∧
+      (∀ c v s'', hset s' hd c v = (s'', .ok) → ∀ c', s''.value k c' = s'.value k c') ∧
+      (∀ c v s'', layerSet s' k c v = (s'', .ok) → ∀ c', hget s'' hd c' = hget s' hd c') := by
+  have hw := h.wf
+  unfold fromData at hf
+  split at hf
+  · simp at hf
+  · split at hf
+    · simp at hf
+    · next a dims hlk =>
+      split at hf
+      · simp at hf
+      · simp only [Prod.mk.injEq, Out.id.injEq] at hf
+        obtain ⟨rfl, rfl⟩ := hf
+        have halt : a < s.next := hw.handle_lt hd a dims hlk
+        have hne : s.next ≠ a := by omega
+        refine ⟨a, dims, hlk, rfl, by simp [upd], by simp [State.dtypeOf, upd], fun c => by simp [State.value, upd],
+          fun l c hl => ?_, fun c v s'' hs c' => ?_, fun c v s'' hs c' => ?_⟩
+        · have h1 : l ≠ s.nLayers := by omega
+          have h2 : (s.layers l).data ≠ s.next := by have := hw.data_lt l hl; omega
+          simp [State.value, upd, h1, h2]
+        · obtain ⟨a', d', hlk', _, rfl⟩ := hset_ok hs
+          simp only [hlk, Option.some.injEq, Prod.mk.injEq] at hlk'
+          obtain ⟨rfl, rfl⟩ := hlk'
+          simp [State.value, upd, hne]
+        · obtain ⟨_, _, rfl⟩ := layerSet_ok hs
+          simp [hget, hlk, upd, hne.symm]
+
+/-! ## the cast and promotion rules are numpy's -/
+
+/-- The model's cast rules are numpy's: for all element types, `sameKind` is what `np.copyto` of the running numpy accepts
+    (scalar and array sources: `set_cells`), and `DType.join` is the dtype `np.where` gives the re-pointed array
+    (`modify_cells`).  `Gen/NumpyTables.lean` is probed from the running interpreter on every check. -/
+theorem C11_cast_rules_match_numpy (a b : DType) :
+    Gen.npCopytoScalar.lookup (a.rank, b.rank) = some (sameKind a b) ∧
+    Gen.npCopytoArray.lookup (a.rank, b.rank) = some (sameKind a b) ∧
+    Gen.npWhereType.lookup (a.rank, b.rank) = some (a.join b).rank := by
+  cases a <;> cases b <;> decide
+
+set_option maxRecDepth 8000 in
+/-- `UOp.result` is the result type of the running numpy for every ufunc of the op language, every array dtype and every
+    type of Python scalar (`none` = numpy's `TypeError`: boolean subtract) — as a ufunc and, for the operators whose
+    Python-function form is in the op language, as `np.vectorize(lambda x: x OP scalar)`. -/
+theorem C11_ufunc_types_match_numpy (op : UOp) (d t : DType) :
+    Gen.npUfuncType.lookup (op.name, d.rank, t.rank) = some ((op.result d t).map DType.rank) ∧
+    (op ≠ .max → op ≠ .min →
+      Gen.npFnType.lookup (op.name, d.rank, t.rank) = some ((op.result d t).map DType.rank)) := by
+  cases op <;> cases d <;> cases t <;> decide
+
+set_option maxRecDepth 8000 in
+/-- On the probed sample grid (every pair of types; negative, zero, integral and non-integral values) the model's values are
+    numpy's: `castTo` is the entry left by `arr[0] = scalar` and by `np.full(shape, scalar, dtype)`, `UOp.apply` the entry
+    of `ufunc(array, scalar)` in the encoding of the result dtype. -/
+theorem C11_cast_values_match_numpy :
+    (∀ e ∈ Gen.npAssign, castCode e.1.1 e.1.2.1 e.1.2.2 = some e.2) ∧
+    (∀ e ∈ Gen.npFull, castCode e.1.1 e.1.2.1 e.1.2.2 = some e.2) ∧
+    (∀ e ∈ Gen.npUfuncValue, applyCode e.1.1 e.1.2.1 e.1.2.2.1 e.1.2.2.2.1 e.1.2.2.2.2 = some e.2) := by
+  refine ⟨by decide, by decide, by decide⟩
+
+set_option maxRecDepth 8000 in
+/-- the probed tables are not empty and say what one expects: -2.75 assigned into an int array is -2, 2.75 into a bool
+    array True; `np.add(int array, 0.5)` is a float array -/
+example : 50 ≤ Gen.npAssign.length ∧ 50 ≤ Gen.npFull.length ∧ 200 ≤ Gen.npUfuncValue.length ∧
+    Gen.npAssign.lookup (1, 2, -11) = some (-2) ∧ Gen.npFull.lookup (0, 2, 11) = some 1 ∧
+    Gen.npUfuncType.lookup ("add", 1, 2) = some (some 2) ∧ Gen.npUfuncValue.lookup ("add", 1, -3, 2, 2) = some (-10) := by
+  decide
+
 /-! ## adding and removing layers -/
 
 /-- `create_property_layer`: the new layer holds the default everywhere, is attached under its name,
     and no existing layer changes. -/
-theorem C11_create_default {s s' : State} (h : Reach s) {n : String} {d : Int} {k : Nat}
-    (hc : create s n d = (s', .id k)) :
+theorem C11_create_default {s s' : State} (h : Reach s) {n : String} {dt : DType} {d : Int} {k : Nat}
+    (hc : create s n dt d = (s', .id k)) :
     k = s.nLayers ∧ s'.named? n = some k ∧ (∀ c, s'.value k c = d) ∧
     ∀ l c, l < s.nLayers → s'.value l c = s.value l c := by
   have hw := h.wf
@@ -297,6 +593,48 @@ theorem C11_create_default {s s' : State} (h : Reach s) {n : String} {d : Int} {
       have h1 : l ≠ s.nLayers := by omega
       have h2 : (s.layers l).data ≠ s.next := by have := hw.data_lt l hl; omega
       simp [State.value, upd, h1, h2]
+
+/-- `create_property_layer(name, default_value, dtype)` with a default of any Python type: the array is
+    `np.full(dims, default, dtype)` — every entry is numpy's cast of the default into the dtype asked for (2.75 into
+    an int layer: 2, any non-zero number into a bool layer: True; the constructor only warns) — the layer has that
+    dtype, and at every cell of the grid both views read that one cast value. -/
+theorem C11_create_typed_default {s s' : State} (h : Reach s) {n : String} {dt : DType} {w : WVal} {k : Nat}
+    (hc : step s (.create n dt w) = (s', .id k)) :
+    s'.named? n = some k ∧ s'.dtypeOf k = dt ∧
+    (∀ x, w = .py x → ∀ c, s'.value k c = castTo dt x) ∧ (∀ v, w = .raw v → ∀ c, s'.value k c = v) ∧
+    ∀ c, inBounds s'.dims c = true →
+      cellGet s' n c = .val (w.resolve dt) ∧ layerGet s' k c = .val (w.resolve dt) := by
+  have hr' : Reach s' := by
+    have := Reach.step (.create n dt w) h
+    rwa [hc] at this
+  simp only [step] at hc
+  obtain ⟨hk, hn, hv, _⟩ := C11_create_default h hc
+  have hdt : s'.dtypeOf k = dt := by
+    unfold create at hc
+    split at hc
+    · simp at hc
+    · simp only [Prod.mk.injEq, Out.id.injEq] at hc
+      obtain ⟨rfl, rfl⟩ := hc
+      simp [State.dtypeOf, upd]
+  refine ⟨hn, hdt, ?_, ?_, ?_⟩
+  · rintro x rfl c; exact hv c
+  · rintro v rfl c; exact hv c
+  · intro c hcb
+    obtain ⟨h1, h2⟩ := C11_two_views_one_value hr' hn hcb
+    rw [h1, h2, hv c]
+    exact ⟨rfl, rfl⟩
+
+/-- the same for a free-standing `PropertyLayer(name, dims, default, dtype)` of any shape -/
+theorem C11_new_layer_typed_default {s s' : State} {n : String} {dims : List Nat} {dt : DType} {w : WVal} {k : Nat}
+    (hc : step s (.newLayer n dims dt w) = (s', .id k)) :
+    k = s.nLayers ∧ s'.layer? k = some ⟨n, dims, s.next⟩ ∧ s'.dtypeOf k = dt ∧ ∀ c, s'.value k c = w.resolve dt := by
+  simp only [step] at hc
+  unfold newLayer at hc
+  split at hc
+  · simp at hc
+  · simp only [Prod.mk.injEq, Out.id.injEq] at hc
+    obtain ⟨rfl, rfl⟩ := hc
+    simp [State.layer?, State.dtypeOf, State.value, upd]
 
 /-- `remove_property_layer(name)`: the name disappears from the grid, every other name stays attached
     to its layer, and no layer object changes its values (the removed layer can be attached again). -/
@@ -346,6 +684,77 @@ theorem C11_attach_exposes_layer {s s' : State} (h : Reach s) {l : Nat} (ha : at
   obtain ⟨h1, h2, h3, h4⟩ := hnamed
   refine ⟨h1, h2, h3, fun c hc => ?_⟩
   rw [cellGet_eq_value hr'.wf h1 (by rw [h4]; exact hc), h3]
+
+/-! ## the clash rule of `add_property_layer`, re-proved against the source on every check
+
+`reservedNames` is built from `Gen/LayersTables.lean`, which the harness rewrites from `cell.py` / `grid.py`
+of the checked tree before every build; the `decide`s below are therefore about the code as it is *now*. -/
+
+/-- The names the model refuses as layer names — what the *source* of `class Cell` (slots, methods,
+    properties, class attributes) and of the dynamic `GridCell` class defines, plus what Python gives every
+    class — are exactly the attributes the running code reports for the grid's cell class
+    (`dir(grid.cell_klass)`, layer descriptors removed): `name ∈ reservedNames` is
+    `hasattr(self.cell_klass, name)`. -/
+theorem C11_reserved_names_are_cell_class_attributes (n : String) :
+    n ∈ reservedNames ↔ n ∈ Gen.cellKlassProbe := by
+  have h1 : reservedNames.all (fun x => decide (x ∈ Gen.cellKlassProbe)) = true := by decide
+  have h2 : Gen.cellKlassProbe.all (fun x => decide (x ∈ reservedNames)) = true := by decide
+  rw [List.all_eq_true] at h1 h2
+  exact ⟨fun h => by simpa using h1 n h, fun h => by simpa using h2 n h⟩
+
+/-- Every name through which a cell takes part in occupancy, emptiness and neighbourhoods (what the model's
+    `place` / `move` / `remove` / `isEmptyCell` stand for: `Cell.add_agent`, `remove_agent`, `agents`, `_agents`,
+    `is_empty`, `is_full`, `capacity`, `coordinate`, `connections`, `neighborhood`, …) is reserved, so no layer
+    can shadow it (defect PL1), while `empty` — the name `Grid.__init__` itself gives its built-in layer — is
+    free. -/
+theorem C11_cell_protocol_names_reserved :
+    (∀ n ∈ ["_agents", "agents", "add_agent", "remove_agent", "is_empty", "is_full", "capacity", "coordinate",
+            "connections", "connect", "disconnect", "neighborhood", "get_neighborhood", "random",
+            "_mesa_properties", "__dict__", "__class__", "__init__"], n ∈ reservedNames) ∧
+    "empty" ∉ reservedNames := by
+  decide
+
+/-- The built-in layer is an ordinary one: a fresh grid *is* the layer-less grid after
+    `create_property_layer("empty", True, bool)`, a call the clash rule lets through. -/
+theorem C11_builtin_empty_is_created_layer (dims : List Nat) (cap : Nat) :
+    create { init .new dims cap with next := 0, nLayers := 0, attached := [] } "empty" .bool 1
+      = (init .new dims cap, .id 0) := by
+  have hfree : "empty" ∉ reservedNames := C11_cell_protocol_names_reserved.2
+  unfold create attachCheck
+  simp only [init, State.named?, List.lookup_nil, Option.isSome_none, ne_eq, not_true_eq_false,
+    if_false, Bool.false_eq_true, hfree, if_true, List.nil_append, Nat.zero_add, Prod.mk.injEq, and_true]
+  congr 1
+  · funext j; simp [upd]
+  · funext j; simp [upd]
+  · funext j; simp [upd]
+
+/-- After every history on a cell space: a name of the cell class is never attached as a layer — every
+    `add_property_layer` of a layer so named is refused and changes nothing — and, the other way round,
+    whatever is attached is not a name of the cell class, so the cell attribute of that name *is* the layer
+    entry (never the method or property of `Cell`). -/
+theorem C11_layer_never_shadows_cell_attribute {s : State} (h : Reach s) (hi : s.impl = .new) :
+    (∀ n ∈ reservedNames, s.named? n = none ∧
+      ∀ lid, lid < s.nLayers → (s.layers lid).name = n → ∃ w, attach s lid = (s, .err (.value w))) ∧
+    (∀ n l, s.named? n = some l → n ∉ reservedNames ∧
+      ∀ c, inBounds s.dims c = true → cellGet s n c = .val (s.value l c)) := by
+  have hw := h.wf
+  refine ⟨fun n hn => ⟨?_, fun lid hl hname => ?_⟩, fun n l hnl => ⟨hw.att_free hi n l hnl, fun c hc => ?_⟩⟩
+  · cases hx : s.named? n with
+    | none => rfl
+    | some l => exact absurd hn (hw.att_free hi n l hx)
+  · have hchk : ∃ w, attachCheck s (s.layers lid) = some w := by
+      unfold attachCheck
+      simp only [hi, hname]
+      split
+      · exact ⟨_, rfl⟩
+      · split
+        · exact ⟨_, rfl⟩
+        · exact ⟨.clash, rfl⟩
+    obtain ⟨w, hchk⟩ := hchk
+    refine ⟨w, ?_⟩
+    unfold attach State.layer?
+    simp [hl, hchk]
+  · exact cellGet_eq_value hw hnl hc
 
 /-! ## the emptiness layer / mask is actual emptiness -/
 
@@ -490,13 +899,321 @@ theorem C11_only_empty_is_actual_emptiness (impl : Impl) (dims : List Nat) (cap 
   · rintro ⟨a, b, d⟩
     exact ⟨a, by simp [b], d⟩
 
+/-! ## the layer's own `select_cells` and `aggregate` -/
+
+/-- `layer.select_cells(condition, return_list)` on the layer itself (attached or not): the list form is
+    exactly the coordinates of the layer's shape whose *current* value passes the condition — each once, in
+    row-major order — and the mask form is the condition evaluated at every coordinate; the list is the
+    coordinates at which the mask is true. -/
+theorem C11_layer_select_exact {s : State} {l : Nat} {p : Int → Bool} {list : List Coord} {mask : List Bool}
+    (h : layerSelect s l p = .sel list mask) :
+    l < s.nLayers ∧
+    (∀ c, c ∈ list ↔ inBounds (s.layers l).dims c = true ∧ p (s.value l c) = true) ∧
+    mask = (cells (s.layers l).dims).map (fun c => p (s.value l c)) ∧
+    list = (((cells (s.layers l).dims).zip mask).filter (·.2)).map (·.1) ∧ list.Nodup := by
+  unfold layerSelect State.layer? at h
+  split at h
+  · simp at h
+  · next L hL =>
+    split at hL
+    · next hlt =>
+      simp only [Option.some.injEq] at hL
+      subst hL
+      simp only [Out.sel.injEq] at h
+      obtain ⟨rfl, rfl⟩ := h
+      refine ⟨hlt, ?_, rfl, filter_eq_of_zip_map _ _, (cells_nodup _).sublist List.filter_sublist⟩
+      intro c
+      simp only [List.mem_filter, mem_cells, State.value]
+    · simp at hL
+
+/-- For an attached layer of a reachable state the layer's own selection speaks about the cell attributes:
+    a cell of the grid is in the list iff the value read through *its attribute* passes the condition. -/
+theorem C11_layer_select_reads_cell_values {s : State} (hr : Reach s) {n : String} {l : Nat}
+    (hn : s.named? n = some l) {p : Int → Bool} {list : List Coord} {mask : List Bool}
+    (h : layerSelect s l p = .sel list mask) {c : Coord} (hc : inBounds s.dims c = true) :
+    c ∈ list ↔ ∃ v, cellGet s n c = .val v ∧ p v = true := by
+  obtain ⟨_, hmem, _⟩ := C11_layer_select_exact h
+  obtain ⟨h1, h2⟩ := C11_two_views_one_value hr hn hc
+  rw [hmem c, hr.wf.att_dims n l hn, h1, h2]
+  simp [hc]
+
+/-- `layer.aggregate(np.sum | np.max | np.min)`: the sum is the sum of the values at the coordinates of the
+    layer's shape; the maximum (minimum) is the value of some cell and no cell's value is beyond it; it is
+    refused exactly for a layer without cells (numpy: zero-size array has no identity for max / min). -/
+theorem C11_aggregate_exact {s : State} {l : Nat} (hl : l < s.nLayers) :
+    aggregate s l .sum = .val (((cells (s.layers l).dims).map (s.value l)).sum) ∧
+    (∀ hi : Bool, ∀ v, aggregate s l (if hi then .max else .min) = .val v ↔
+      (∃ c ∈ cells (s.layers l).dims, s.value l c = v) ∧
+      ∀ c ∈ cells (s.layers l).dims, notBeyond hi (s.value l c) v) ∧
+    (∀ hi : Bool, aggregate s l (if hi then .max else .min) = .err (.value .empty) ↔
+      cells (s.layers l).dims = []) := by
+  have hL : s.layer? l = some (s.layers l) := by simp [State.layer?, hl]
+  have hv : (fun c => s.heap (s.layers l).data c) = s.value l := rfl
+  refine ⟨?_, ?_, ?_⟩
+  · simp only [aggregate, hL, foldl_add_eq_sum, Int.zero_add]; rfl
+  · intro hi v
+    have key : aggregate s l (if hi then .max else .min) =
+        match extremum hi ((cells (s.layers l).dims).map (s.value l)) with
+        | some v => .val v | none => .err (.value .empty) := by
+      cases hi <;> simp only [aggregate, hL] <;> rfl
+    rw [key]
+    constructor
+    · intro h
+      split at h
+      · next t ht =>
+        simp only [Out.val.injEq] at h
+        subst h
+        refine ⟨?_, ?_⟩
+        · have := extremum_mem ht
+          simp only [List.mem_map] at this
+          exact this
+        · intro c hc
+          exact extremum_bound ht _ (List.mem_map_of_mem hc)
+      · simp at h
+    · rintro ⟨⟨c, hc, rfl⟩, hb⟩
+      split
+      · next t ht =>
+        have hm := extremum_mem ht
+        simp only [List.mem_map] at hm
+        obtain ⟨c', hc', rfl⟩ := hm
+        have b1 := extremum_bound ht _ (List.mem_map_of_mem hc)
+        have b2 := hb c' hc'
+        congr 1
+        unfold notBeyond at b1 b2
+        cases hi <;> simp at b1 b2 <;> omega
+      · next hnone =>
+        have := extremum_eq_none.mp hnone
+        simp only [List.map_eq_nil_iff] at this
+        rw [this] at hc
+        simp at hc
+  · intro hi
+    have key : aggregate s l (if hi then .max else .min) =
+        match extremum hi ((cells (s.layers l).dims).map (s.value l)) with
+        | some v => .val v | none => .err (.value .empty) := by
+      cases hi <;> simp only [aggregate, hL] <;> rfl
+    rw [key]
+    split
+    · next t ht =>
+      simp only [reduceCtorEq, false_iff]
+      intro hnil
+      rw [hnil] at ht
+      simp [extremum] at ht
+    · next hnone =>
+      simp only [true_iff]
+      have := extremum_eq_none.mp hnone
+      simpa using this
+
+/-! ## the grid attribute `grid.<name>` -/
+
+/-- `grid.<name>` of a new-style grid (`HasPropertyLayers.__getattr__`) is the attached layer: for a name the user never
+    assigned on the grid object itself, `grid.<name>.data` is the layer's current array — the very values the cells
+    read through their attribute; a name the user did assign reads that object instead. -/
+theorem C11_grid_attribute_is_layer {s : State} (h : Reach s) (hi : s.impl = .new) {n : String} {l : Nat}
+    (hn : s.named? n = some l) :
+    (n ∉ s.gattrs → dumpName s n = dump s l ∧ dumpName s n = .arr ((cells s.dims).map (s.value l)) ∧
+      ∀ c, inBounds s.dims c = true → cellGet s n c = .val (s.value l c)) ∧
+    (n ∈ s.gattrs → dumpName s n = .err .shadowed) := by
+  have hw := h.wf
+  have hl := hw.att_lt n l hn
+  have hd := hw.att_dims n l hn
+  constructor
+  · intro hg
+    have h1 : dumpName s n = .arr ((cells s.dims).map (s.value l)) := by
+      unfold dumpName
+      rw [if_neg (fun hh => hg hh.2), hn]
+      simp only [hd]
+      rfl
+    refine ⟨?_, h1, fun c hc => ?_⟩
+    · rw [h1]
+      unfold dump State.layer?
+      rw [if_pos hl]
+      simp only [hd]
+      rfl
+    · obtain ⟨a, b⟩ := C11_two_views_one_value h hn hc
+      rw [a, b]
+  · intro hg
+    unfold dumpName
+    rw [if_pos ⟨hi, hg⟩]
+
+/-- `grid.<name> = x` (`HasPropertyLayers.__setattr__`) is refused with `AttributeError` while a layer is attached
+    under that name, and nothing changes. -/
+theorem C11_grid_attribute_assignment_refused {s : State} (hi : s.impl = .new) {n : String}
+    (hn : (s.named? n).isSome = true) : gridSet s n = (s, .err .attr) := by
+  unfold gridSet
+  rw [if_neg (by simp [hi]), if_pos hn]
+
+/-- Over every history: a layer's name that is not an attribute of the grid object cannot become one while the layer
+    stays attached — whatever is done in between, `grid.<name>` keeps meaning the layer. -/
+theorem C11_grid_attribute_never_replaces_layer (s : State) {n : String} (hg : n ∉ s.gattrs) (ops : List Op)
+    (hatt : ∀ k, k < ops.length → ((run s (ops.take k)).1.named? n).isSome = true) :
+    n ∉ (run s ops).1.gattrs := by
+  induction ops generalizing s with
+  | nil => exact hg
+  | cons op ops ih =>
+    rw [run_cons_fst]
+    have h0 : (s.named? n).isSome = true := hatt 0 (by simp)
+    apply ih
+    · rcases step_gattrs s op with e | ⟨m, _, hm, e⟩
+      · rw [e]; exact hg
+      · rw [e]
+        intro hmem
+        rcases List.mem_cons.mp hmem with rfl | hmem
+        · rw [hm] at h0; simp at h0
+        · exact hg hmem
+    · intro k hk
+      have := hatt (k + 1) (by simp; omega)
+      rwa [List.take_succ_cons, run_cons_fst] at this
+
+/-! ## one layer object on two grids -/
+
+/-- A layer added to a second grid as well (`g2.add_property_layer(layer)`; refused exactly like on the first:
+    its own `empty`, names of the cell class): the cell attribute on the second grid, the cell attribute on the
+    first grid and the layer entry are one value — a read through any of them gives it, and a write through the
+    second grid's cell (cast by the layer's dtype) is read back through the first grid's cells and the layer,
+    changing nothing else. -/
+theorem C11_shared_layer_second_grid {s : State} (h : Reach s) {l : Nat} {c : Coord} {L : Layer}
+    (hok : otherGridCheck s l c = .ok L) :
+    cellGet2 s l c = layerGet s l c ∧ (∀ n, s.named? n = some l → cellGet s n c = cellGet2 s l c) ∧
+    ∀ w s', cellSet2 s l c w = (s', .ok) →
+      layerGet s' l c = .val (w.resolve (s.dtypeOf l)) ∧ cellGet2 s' l c = .val (w.resolve (s.dtypeOf l)) ∧
+      (∀ n, s.named? n = some l → cellGet s' n c = .val (w.resolve (s.dtypeOf l))) ∧
+      ∀ l' c', l' < s.nLayers → (l' ≠ l ∨ c' ≠ c) → s'.value l' c' = s.value l' c' := by
+  have hw := h.wf
+  -- what an accepted check says
+  have hchk : l < s.nLayers ∧ L = s.layers l ∧ inBounds (s.layers l).dims c = true := by
+    unfold otherGridCheck at hok
+    split at hok
+    · simp at hok
+    · split at hok
+      · simp at hok
+      · next L' hL =>
+        obtain ⟨hlt, rfl⟩ := layer?_some hL
+        split at hok
+        · simp at hok
+        · split at hok
+          · simp at hok
+          · split at hok
+            · simp at hok
+            · next hb =>
+              simp only [Except.ok.injEq] at hok
+              exact ⟨hlt, hok.symm, by simpa using hb⟩
+  obtain ⟨hl, rfl, hc⟩ := hchk
+  have hget : cellGet2 s l c = layerGet s l c := by
+    rw [layerGet_eq_value hl hc]
+    unfold cellGet2
+    rw [hok]
+    rfl
+  refine ⟨hget, fun n hn => ?_, fun w s' hset => ?_⟩
+  · rw [hget, layerGet_eq_value hl hc]
+    exact cellGet_eq_value hw hn (by rw [← hw.att_dims n l hn]; exact hc)
+  · have hls : layerSet s l c (w.resolve (s.dtypeOf l)) = (s', .ok) := by
+      unfold cellSet2 at hset
+      rw [hok] at hset
+      exact hset
+    obtain ⟨h1, h2, h3⟩ := C11_layer_write_read_through_cell h hls
+    refine ⟨h1, ?_, h2, h3⟩
+    have hsh := sameShape_layerSet s l c (w.resolve (s.dtypeOf l))
+    rw [hls] at hsh
+    have hok' : otherGridCheck s' l c = .ok (s.layers l) := by
+      unfold otherGridCheck State.layer? at hok ⊢
+      rw [hsh.impl, hsh.nLayers, hsh.layers]
+      exact hok
+    rw [← h1]
+    unfold cellGet2
+    rw [hok', layerGet_eq_value (by rw [hsh.nLayers]; exact hl) (by rw [hsh.layers]; exact hc)]
+    have hsl : s'.layers = s.layers := hsh.layers
+    simp only [State.value, hsl]
+
+/-! ## neighbourhood masks and their use in `select_cells(masks=…)` -/
+
+/-- being within `r` steps is symmetric (Moore and von Neumann, torus or not, any number of dimensions) -/
+theorem C11_within_radius_symmetric (moore torus : Bool) (dims : List Nat) (c c' : Coord) (r : Nat) :
+    withinRadius moore torus dims c r c' = withinRadius moore torus dims c' r c := by
+  have hax : ∀ n x y, axisDist torus n x y = axisDist torus n y x := by
+    intro n x y
+    unfold axisDist
+    have : (if x ≤ y then y - x else x - y) = (if y ≤ x then x - y else y - x) := by
+      split <;> split <;> omega
+    simp only [this]
+  have hds : ∀ (ds : List Nat) (a b : Coord), axisDists torus ds a b = axisDists torus ds b a := by
+    intro ds
+    induction ds with
+    | nil => intro a b; cases a <;> cases b <;> rfl
+    | cons n ns ih =>
+      intro a b
+      cases a with
+      | nil => cases b <;> rfl
+      | cons x xs =>
+        cases b with
+        | nil => rfl
+        | cons y ys => simp only [axisDists, hax n x y, ih xs ys]
+  unfold withinRadius
+  rw [hds dims c c']
+
+/-- `get_neighborhood_mask(c, include_center, radius)` kept as a mask: it is true exactly at the cells of
+    the grid within `radius` steps of `c` (king moves for Moore, rook steps for von Neumann; the shorter
+    way round on a torus), at `c` itself iff `include_center`; both output forms describe it; no layer
+    value changes. -/
+theorem C11_neighborhood_mask_exact {s s' : State} {k : Nat} {moore torus : Bool} {c : Coord} {ic : Bool}
+    {r : Nat} {list : List Coord} {mask : List Bool}
+    (h : nbhdMask s k (some moore) torus c ic r = (s', .sel list mask)) :
+    ∃ m, s'.masks.lookup k = some m ∧
+      (∀ c', m c' = true ↔ inBounds s.dims c' = true ∧
+        (if c' = c then ic = true else withinRadius moore torus s.dims c r c' = true)) ∧
+      list = (cells s.dims).filter m ∧ mask = (cells s.dims).map m ∧
+      (∀ l c', s'.value l c' = s.value l c') ∧ s'.dims = s.dims := by
+  unfold nbhdMask at h
+  simp only at h
+  split at h
+  · simp at h
+  · split at h
+    · simp at h
+    · simp only [Prod.mk.injEq, Out.sel.injEq] at h
+      obtain ⟨rfl, rfl, rfl⟩ := h
+      refine ⟨_, by simp, fun c' => ?_, rfl, rfl, fun _ _ => rfl, rfl⟩
+      simp only [Bool.and_eq_true]
+      constructor
+      · rintro ⟨h1, h2⟩
+        refine ⟨h1, ?_⟩
+        split <;> simp_all
+      · rintro ⟨h1, h2⟩
+        refine ⟨h1, ?_⟩
+        split <;> simp_all
+
+/-- A saved mask among the `masks=` of a grid selection restricts it: every selected cell satisfies that
+    mask, whatever other masks, `only_empty`, conditions and extreme values are given — so selecting with a
+    neighbourhood mask returns only cells of that neighbourhood (`C11_neighborhood_mask_exact`), and the extreme
+    values are taken among the neighbourhood's cells that pass the other filters (`C11_select_exact`). -/
+theorem C11_select_within_saved_mask {s s' : State} {k : Nat} {m : Coord → Bool} (hk : s.masks.lookup k = some m)
+    {others : List MaskRef} {oe : Bool} {conds : List (String × (Int → Bool))}
+    {exts : List (String × Option Bool)} {save : Option Nat} {list : List Coord} {mask : List Bool}
+    (h : step s (.select (.saved k :: others) oe conds exts save) = (s', .sel list mask)) :
+    ∀ c ∈ list, inBounds s.dims c = true ∧ m c = true := by
+  simp only [step, resolveMasks, hk] at h
+  cases hr : resolveMasks s others with
+  | none => rw [hr] at h; simp at h
+  | some ms =>
+    rw [hr] at h
+    simp only [Option.map_some] at h
+    cases hsel : selectMask s ⟨m :: ms, oe, conds, exts⟩ with
+    | error e => rw [hsel] at h; simp at h
+    | ok m2 =>
+      rw [hsel] at h
+      have hl : list = (cells s.dims).filter m2 := by
+        cases save <;> simp only [Prod.mk.injEq, Out.sel.injEq] at h <;> exact h.2.1.symm
+      intro c hc
+      rw [hl] at hc
+      obtain ⟨hcc, hm2⟩ := List.mem_filter.mp hc
+      have hf := ExtSpec_base ((C11_select_exact hsel hcc).mp hm2)
+      exact ⟨mem_cells.mp hcc, hf.1 m (List.mem_cons_self ..)⟩
+
 /-! ## non-vacuity: the hypotheses are satisfiable by non-trivial reachable states -/
 
 /-- a cell space with capacity 1: a layer written through the layer, re-pointed by a conditional
     `modify_cells`, an agent placed, a reference taken before a second re-pointing -/
 private def demo : State :=
   (run (init .new [2, 3] 1)
-    [.create "a" 0, .layerSet 1 [1, 2] 5, .layerSet 1 [0, 0] 5, .place 7 [0, 1],
+    [.create "a" .int 0, .layerSet 1 [1, 2] 5, .layerSet 1 [0, 0] 5, .place 7 [0, 1],
      .modifyCells 1 (some (· + 1)) (some (fun x => decide (x > 3))), .grab 0 1,
      .modifyCells 1 (some (· * 2)) none]).1
 
@@ -511,20 +1228,110 @@ example : selectCells demo ⟨[], true, [], [("a", some false)]⟩
     = .sel [[0, 2], [1, 0], [1, 1]] [false, false, true, true, true, false] := by decide
 /-- a history that never writes layer 1 (`noWrite`) although it creates and re-points another layer,
     detaches and re-attaches layer 1 and moves an agent: the value written before it is still read -/
-example : noWrite 1 (run (init .new [2, 2] 0) [.create "a" 0, .cellSet "a" [0, 1] 7]).1
-    [.create "b" 1, .modifyCells 2 (some (· + 1)) none, .detach "a", .place 0 [0, 1], .attach 1] := by
+example : noWrite 1 (run (init .new [2, 2] 0) [.create "a" .int 0, .cellSet "a" [0, 1] 7]).1
+    [.create "b" .int 1, .modifyCells 2 (some (· + 1)) none, .detach "a", .place 0 [0, 1], .attach 1] := by
   refine ⟨?_, ?_, ?_, ?_, ?_, trivial⟩
   · simp [Op.mayWrite]
   · simp [Op.mayWrite]
   · simp [Op.mayWrite]
   · simp only [Op.mayWrite, not_and]; intro _; decide
   · simp [Op.mayWrite]
-example : cellGet (run (init .new [2, 2] 0) [.create "a" 0, .cellSet "a" [0, 1] 7,
-    .create "b" 1, .modifyCells 2 (some (· + 1)) none, .detach "a", .place 0 [0, 1], .attach 1]).1 "a" [0, 1]
+example : cellGet (run (init .new [2, 2] 0) [.create "a" .int 0, .cellSet "a" [0, 1] 7,
+    .create "b" .int 1, .modifyCells 2 (some (· + 1)) none, .detach "a", .place 0 [0, 1], .attach 1]).1 "a" [0, 1]
     = .val 7 := by decide
 /-- legacy MultiGrid with two agents in one cell: the mask turns true only when the last one leaves -/
 example : ((run (init .multi [2, 2] 0) [.place 0 [0, 1], .place 1 [0, 1], .remove 0, .empties, .remove 1, .empties]).2.drop 3)
     = [.emp (some [1, 0, 1, 1]) [true, false, true, true], .ok, .emp (some [1, 1, 1, 1]) [true, true, true, true]] := by
   decide
+
+/-- the clash rule at work on a reachable state: `is_empty` is refused, `a` is attached and read through the cell -/
+example : (run (init .new [2, 2] 0) [.newLayer "is_empty" [2, 2] .int 0, .attach 1, .create "a" .int 3, .cellGet "a" [1, 1],
+    .cellGet "is_empty" [1, 1]]).2 = [.id 1, .err (.value .clash), .id 2, .val 3, .err .attr] := by decide
+example : "is_empty" ∈ reservedNames ∧ "a" ∉ reservedNames := by decide
+
+/-- dtypes at work on a reachable state: a float written through the cell attribute of an int layer is
+    truncated toward zero (2.75 ↦ 2, -2.75 ↦ -2) and read back so through the layer; `set_cells` refuses the
+    float; `modify_cells(np.add, 0.5, cond)` re-points the layer to a float array holding the same numbers
+    (3 ↦ 3.5 where the condition held, 2 ↦ 2.0, -2 ↦ -2.0 elsewhere); now the same cell write is exact -/
+example : (run (init .new [2, 2] 0)
+    [.create "a" .int 3, .cellSet "a" [0, 0] (.py ⟨.float, 11⟩), .layerGet 1 [0, 0],
+     .cellSet "a" [0, 1] (.py ⟨.float, -11⟩), .cellGet "a" [0, 1],
+     .setCells 1 (.py ⟨.float, 8⟩) none, .dtype 1,
+     .modifyU 1 .add ⟨.float, 2⟩ (some fun x => x == 3), .dtype 1, .dump 1,
+     .cellSet "a" [0, 0] (.py ⟨.float, 11⟩), .layerGet 1 [0, 0]]).2 =
+    [.id 1, .ok, .val 2, .ok, .val (-2), .err .type, .dt .int, .ok, .dt .float, .arr [8, -8, 14, 14],
+     .ok, .val 11] := by decide
+/-- a bool layer: any non-zero number written through a cell is `True`; `set_cells(1)` is refused, `set_cells(True)`
+    is not; numpy has no `bool - bool`; `bool + int` makes it an int layer -/
+example : (run (init .single [1, 2] 0)
+    [.create "b" .bool 0, .cellSet "b" [0, 1] (.py ⟨.float, -2⟩), .dump 0, .setCells 0 (.py ⟨.int, 1⟩) none,
+     .setCells 0 (.py ⟨.bool, 1⟩) (some fun x => x == 0), .modifyU 0 .sub ⟨.bool, 1⟩ none,
+     .modifyU 0 .add ⟨.int, 2⟩ none, .dtype 0, .dump 0]).2 =
+    [.id 0, .ok, .arr [0, 1], .err .type, .ok, .err .type, .ok, .dt .int, .arr [3, 3]] := by decide
+example : (⟨.float, -11⟩ : Val).ok ∧ (⟨.bool, 1⟩ : Val).ok ∧ sameKind .bool .int = true ∧ sameKind .float .int = false := by
+  simp [Val.ok, sameKind, DType.rank]
+/-- a history that never re-types layer 1 although it writes floats into it, re-points another layer to a
+    wider dtype and re-points layer 1 itself without changing its type -/
+example : noRetype 1 [.cellSet "a" [0, 0] (.py ⟨.float, 11⟩), .modifyU 2 .add ⟨.float, 2⟩ none,
+    .modifyCells 1 (some (· + 1)) none, .setCells 1 (.py ⟨.bool, 1⟩) none] := by
+  intro op hop
+  simp only [List.mem_cons, List.mem_nil_iff, or_false] at hop
+  rcases hop with rfl | rfl | rfl | rfl <;> simp [Op.mayRetype]
+
+/-- `from_data` copies: the layer made from a reference to layer 1's array keeps 3 when the source cell is
+    overwritten with 9, and has the source's dtype -/
+example : (run (init .new [1, 2] 0)
+    [.create "a" .float 3, .grab 0 1, .fromData "b" 0, .hset 0 [0, 1] 9, .dump 2, .dump 1, .dtype 2, .attach 2,
+     .cellGet "b" [0, 1]]).2 = [.id 1, .ok, .id 2, .ok, .arr [3, 3], .arr [3, 9], .dt .float, .ok, .val 3] := by decide
+/-- legacy `modify_cell(pos, np.add, 0.5)` on an int layer keeps the integer part; `modify_cells` promotes -/
+example : (run (init .multi [1, 2] 0)
+    [.create "a" .int 3, .modifyCellU 0 [0, 0] .add ⟨.float, 2⟩, .dump 0, .dtype 0,
+     .modifyU 0 .add ⟨.float, 2⟩ none, .dump 0, .dtype 0]).2 =
+    [.id 0, .ok, .arr [3, 3], .dt .int, .ok, .arr [14, 14], .dt .float] := by decide
+
+/-- a von Neumann torus 3×3: the radius-1 neighbourhood of the corner wraps round; selecting the highest `a`
+    with that mask looks only at the neighbourhood (the 9 at the far cell [1, 1] is not seen) -/
+example : (run (init .new [3, 3] 0)
+    [.create "a" .int 0, .layerSet 1 [1, 1] 9, .layerSet 1 [0, 1] 5, .layerSet 1 [2, 0] 5,
+     .nbhdMask 0 (some false) true [0, 0] false 1,
+     .select [.saved 0] false [] [("a", some true)] none]).2.drop 4 =
+    [.sel [[0, 1], [0, 2], [1, 0], [2, 0]] [false, true, true, true, false, false, true, false, false],
+     .sel [[0, 1], [2, 0]] [false, true, false, false, false, false, true, false, false]] := by decide
+
+/-- a layer on two grids: written through the second grid's cell (2.75 into an int layer: 2), read through the
+    first grid's cell; the second grid refuses `empty` and names of the cell class like the first -/
+example : (run (init .new [2, 2] 0)
+    [.create "a" .int 0, .cellSet2 1 [1, 0] (.py ⟨.float, 11⟩), .cellGet "a" [1, 0], .cellGet2 1 [1, 0], .cellGet2 0 [0, 0],
+     .newLayer "agents" [2, 2] .int 0, .cellSet2 2 [0, 0] 1]).2 =
+    [.id 1, .ok, .val 2, .val 2, .err (.value .exists), .id 2, .err (.value .clash)] := by decide
+
+/-- conditional `set_cells` with an array value is positional: only the cell whose *old* value is 0 takes the
+    source's entry *at that cell* (7), not the first entry of the source (5) -/
+example : (run (init .new [1, 3] 0)
+    [.create "a" .int 1, .create "b" .float 0, .layerSet 1 [0, 0] 5, .layerSet 1 [0, 2] 7, .layerSet 2 [0, 1] 4, .grab 0 1,
+     .setFrom 2 0 (some fun x => x == 0), .dump 2, .grab 1 2, .setFrom 1 1 none]).2.drop 6 =
+    [.ok, .arr [20, 4, 28], .ok, .err .type] := by decide
+
+/-- 2.75 as the default of an int layer is 2 through both views; -0.5 as the default of a bool layer is True;
+    True as the default of a float layer is 1.0 -/
+example : (run (init .new [1, 2] 0)
+    [.create "a" .int (.py ⟨.float, 11⟩), .cellGet "a" [0, 1], .layerGet 1 [0, 1], .dtype 1,
+     .create "b" .bool (.py ⟨.float, -2⟩), .cellGet "b" [0, 0], .create "c" .float (.py ⟨.bool, 1⟩), .dump 3]).2 =
+    [.id 1, .val 2, .val 2, .dt .int, .id 2, .val 1, .id 3, .arr [4, 4]] := by decide
+
+/-- the layer's own selection and aggregates on a reachable state: list and mask of the cells above 2, sum, max, min;
+    a layer without cells has a sum (0) but no maximum -/
+example : (run (init .new [1, 3] 0)
+    [.create "a" .int 2, .layerSet 1 [0, 1] 5, .layerSelect 1 (fun x => decide (x > 2)), .aggregate 1 .sum,
+     .aggregate 1 .max, .aggregate 1 .min, .newLayer "z" [0, 2] .int 0, .aggregate 2 .sum, .aggregate 2 .max]).2.drop 2 =
+    [.sel [[0, 1]] [false, true, false], .val 9, .val 5, .val 2, .id 2, .val 0, .err (.value .empty)] := by decide
+
+/-- the code's own caveat, on a reachable state: an attribute given to the grid *before* the layer exists is not
+    protected — `grid.a` then reads the user's object, while cell attribute and layer still are one value;
+    after the layer exists the assignment is refused -/
+example : (run (init .new [1, 2] 0)
+    [.gridSet "a", .create "a" .int 3, .dumpName "a", .cellGet "a" [0, 1], .create "b" .int 4, .gridSet "b",
+     .dumpName "b", .detach "b", .gridSet "b"]).2 =
+    [.ok, .id 1, .err .shadowed, .val 3, .id 2, .err .attr, .arr [4, 4], .ok, .ok] := by decide
 
 end Mesa.Layers
